@@ -334,6 +334,11 @@ func (p *queryPlan) processClause(ctx context.Context, cls *semantic.GraphClause
 		if err != nil {
 			return false, err
 		}
+		if cls.Optional && len(p.tbl.Bindings()) > 0 {
+			// An optional clause never makes the pattern unresolvable: when the
+			// triple does not exist its aliases are shown as NULL.
+			return false, p.tbl.LeftOptionalJoin(tbl)
+		}
 		if b || len(tbl.Bindings()) == 0 {
 			// Either no such triple exists, or the clause binds nothing and only
 			// required the triple to exist: there are no rows to add.
